@@ -305,6 +305,34 @@ def result_return_sites(body):
     return out
 
 
+def propagates_error(body, bi_call):
+    """Error discipline: does the failure of the Result-returning call in block bi_call leave the enclosing
+    Result-returning function as an Err?  Accepted idioms: the call writes the return place directly (tail
+    call); `?` (Try::branch -> from_residual); an explicit `Err(..)` / moved result on every path from the
+    failure edges to the return.  Returns (ok, reason)."""
+    t = body.blocks[bi_call]["term"]
+    dest = t["dest"]
+    if not dest.get("p") and dest["l"] == 0:
+        return True, "tail call: the callee's result is the function's result"
+    oc = success_edges(body, bi_call)
+    if not oc.err_edges:
+        return False, "the call's failure is never tested (%s)" % "; ".join(oc.unrecognised or ["no failure edge"])
+    cfg = body.cfg
+    targets = []
+    for (_e, sb, k) in oc.err_edges:
+        succs = cfg.succ.get(sb, [])
+        if k < len(succs):
+            targets.append(succs[k])
+    reach = cfg.reachable_from(targets)
+    sites = [(k, bi) for (k, bi, _i) in result_return_sites(body) if bi in reach]
+    bad = [(k, bi) for (k, bi) in sites if k not in ("err", "residual")]
+    if not sites:
+        return False, "no definition of the return value is reachable from the failure edges"
+    if bad:
+        return False, "after the failure a non-error result can still be returned (%s in bb%d)" % bad[0]
+    return True, "every return reachable from the failure edges is an Err (%d site(s))" % len(sites)
+
+
 # ------------------------------------------------------------------ A5 gate functions
 
 def gate_functions(prog, is_gate_call, extra_roots=(), dead_edges_of=None):
